@@ -272,7 +272,13 @@ RELABEL_ONLY = {"C04/": r"fsm:AR_(2|4|8|9|10)/(protocol-effects-are-exactly-PS3\
 def tasks(tier):
     from contracts import C04
     return [IsReleaseRequestedTask(), CallSiteScan(), S.WrapHandlerTask("C20/"), RunReactorTask(), W.WrapTask("find"), W.WrapTask("getmove")] + \
-        [C04.ActionTask(a) for a in RELEASE_ACTIONS] + [C04.DoActionTask(e) for e in ("Evt12", "Evt14")]
+        [C04.ActionTask(a) for a in RELEASE_ACTIONS] + [C04.DoActionTask(e) for e in ("Evt12", "Evt14")] + [_negotiate_release()]
+
+
+def _negotiate_release():
+    # the peer's request arriving while the local user is releasing too (release collision)
+    from contracts.assoc_abort import NegotiateReleaseTask
+    return NegotiateReleaseTask()
 
 
 def replay(rec):
